@@ -180,7 +180,7 @@ def _worker(args):
                     st["nviol"] += 1
                     st["sigcount"][v["signature"]] += 1
                     if st["sigcount"][v["signature"]] <= 2 and len(st["violations"]) < MAX_VIOL_PER_WORKER:
-                        st["violations"].append(dict(family=name, index=idx, case=case, **v))
+                        st["violations"].append(dict(family=name, index=idx, case=case, worker=[wid, nw], **v))
             fst["wall"] += time.time() - tf
     except Exception:  # harness bug
         st["error"] = traceback.format_exc()
@@ -279,10 +279,22 @@ def run_check(pid, tier, seed):
         with open(path, "w") as f:
             json.dump(dict(property=pid, signature=sig, family=v["family"], index=v["index"], case=v["case"] if "case" in v else None,
                            message=v.get("message"), observed=v.get("observed"), expected=v.get("expected"), cases_with_signature=sigcount[sig],
-                           tier=tier), f, indent=1, default=str)
+                           tier=tier, worker=v.get("worker")), f, indent=1, default=str)
         # confirm in a fresh process: the same case must fail again
         if v.get("case") is not None and not v.get("no_confirm"):
             cp = subprocess.run([sys.executable, "-m", "mc.main", pid, "--replay", path, "--confirm"], cwd=ROOT, capture_output=True, text=True)
+            if cp.returncode != 1 and v.get("worker"):
+                # not reproducible in isolation: does it reproduce after the cases the same worker process ran before it
+                # (behaviour that depends on the history of calls in the process, e.g. a module-level cache)?
+                cp = subprocess.run([sys.executable, "-m", "mc.main", pid, "--replay", path, "--confirm", "--history"], cwd=ROOT, capture_output=True, text=True)
+                if cp.returncode == 1:
+                    with open(path) as f:
+                        rp = json.load(f)
+                    rp["history_dependent"] = True
+                    rp["message"] = "(fails only after the preceding cases of the same worker process were executed: history-dependent behaviour) " + (rp.get("message") or "")
+                    with open(path, "w") as f:
+                        json.dump(rp, f, indent=1, default=str)
+                    v["message"] = rp["message"]
             if cp.returncode != 1:
                 sys.stderr.write("ENGINE ERROR: violation %s of %s did not reproduce in a fresh process (rc=%s)\n%s\n%s\n" % (sig, pid, cp.returncode, cp.stdout[-2000:], cp.stderr[-2000:]))
                 return 2
@@ -343,7 +355,7 @@ def run_check(pid, tier, seed):
     return rc
 
 
-def run_replay(pid, path, confirm=False):
+def run_replay(pid, path, confirm=False, history=False):
     pid = pid.upper()
     mod = load_module(pid)
     with open(path) as f:
@@ -353,6 +365,22 @@ def run_replay(pid, path, confirm=False):
     if rp.get("case") is None:
         print("replay file has no case")
         return 2
+    if (history or rp.get("history_dependent")) and rp.get("worker"):
+        # re-execute, in this one process, every case the worker ran before the failing one
+        wid, nw = rp["worker"]
+        done = False
+        for fam in mod.families(rp.get("tier", "quick")):
+            name, gen = fam[0], fam[1]
+            chunk = fam[2] if len(fam) > 2 else 1
+            for idx, case in enumerate(gen()):
+                if (idx // chunk) % nw != wid:
+                    continue
+                if name == rp["family"] and idx == rp["index"]:
+                    done = True
+                    break
+                safe_run_case(mod, case)
+            if done:
+                break
     res = safe_run_case(mod, rp["case"])
     sigs = [v["signature"] for v in res.get("violations") or []]
     if confirm:
